@@ -13,12 +13,19 @@ parse(text) -> dict with
 """
 
 class VcdError(Exception):
-  pass
+  """not well-formed VCD; .lineno/.line = offending line of the file, .time = last '#' stamp seen (None in the header)"""
+  def __init__(self, msg, lineno=None, line=None, time=None):
+    Exception.__init__(self, msg)
+    self.lineno, self.line, self.time = lineno, line, time
 
 SCALARS = '01xXzZ'
 
 def parse(text):
-  toks = text.split()
+  src_lines = text.split('\n')
+  toks, tok_line = [], []
+  for ln, l in enumerate(src_lines, 1):
+    for tk in l.split():
+      toks.append(tk); tok_line.append(ln)
   n = len(toks)
   i = 0
   scope, decls, events = [], [], []
@@ -63,25 +70,32 @@ def parse(text):
       raise VcdError(f'unexpected token {t!r} in the declaration section')
   if scope: raise VcdError('unclosed $scope')
 
-  # value-change section
+  # value-change section: strict — a line is `#<time>`, `<0|1|x|z><id>`, `b<[01xz]+> <id>` (ids declared), or a
+  # simulation keyword; anything else is an error carrying its line and the current time
   body = toks[i:]
   now = None
+  ids = {d[3] for d in decls}
+  def err(msg, j):
+    ln = tok_line[j]
+    return VcdError(f'{msg} (line {ln}: {src_lines[ln - 1]!r}, time {now})', ln, src_lines[ln - 1], now)
   while i < n:
     t = toks[i]
     c = t[0]
     if c == '#':
-      try: tm = int(t[1:])
-      except ValueError: raise VcdError(f'bad time {t!r}')
-      if now is not None and tm < now: raise VcdError(f'time goes backwards: {now} -> {tm}')
+      if not t[1:].isdigit(): raise err(f'bad time {t!r}', i)
+      tm = int(t[1:])
+      if now is not None and tm < now: raise err(f'time goes backwards: {now} -> {tm}', i)
       now = tm
       i += 1
     elif c in SCALARS:
-      if len(t) < 2: raise VcdError(f'scalar change without identifier: {t!r}')
+      if len(t) < 2: raise err(f'scalar change without identifier: {t!r}', i)
+      if t[1:] not in ids: raise err(f'scalar change {t!r}: identifier {t[1:]!r} is not declared', i)
       events.append((now, t[1:], c))
       i += 1
     elif c in 'bB':
-      if len(t) < 2 or any(ch not in SCALARS for ch in t[1:]): raise VcdError(f'bad vector value {t!r}')
-      if i + 1 >= n: raise VcdError('vector change without identifier')
+      if len(t) < 2 or any(ch not in SCALARS for ch in t[1:]): raise err(f'bad vector value {t!r}', i)
+      if i + 1 >= n: raise err('vector change without identifier', i)
+      if toks[i + 1] not in ids: raise err(f'vector change {t!r}: identifier {toks[i + 1]!r} is not declared', i)
       events.append((now, toks[i + 1], 'b' + t[1:]))
       i += 2
     elif t in ('$dumpvars', '$dumpall', '$dumpon', '$dumpoff', '$end'):
@@ -89,7 +103,7 @@ def parse(text):
     elif t == '$comment':
       _, i = block(i)
     else:
-      raise VcdError(f'unexpected token {t!r} in the value-change section')
+      raise err(f'not a value change: {t!r}', i)
   return {'decls': decls, 'events': events, 'body': body, 'timescale': timescale}
 
 def value_of(tok):
